@@ -2,8 +2,8 @@
 (* Bounded-exhaustive instance for C05.                                                     *)
 (*   root -> every graph on n points (n \in Ns, all 2^(n(n-1)/2) link relations)            *)
 (*        -> "gcase": GroupsAlgo stepped on the whole graph (one chunk holding every point) *)
-(*        -> "case":  every cover of at most KFor(n) non-empty chunk lists (and, for n = DeepN,  *)
-(*                    of up to DeepK chunks of at most two points) that satisfies           *)
+(*        -> "case":  every cover of at most KFor(n) non-empty chunk lists (and, for        *)
+(*                    n = DeepN, of up to DeepK chunks of at most two points) satisfying    *)
 (*                    CoverOK, MergeAlgo stepped one (chunk, local group) at a time, then   *)
 (*                    final renumbering, list build, the caller's renumbering and rebuild.  *)
 (* Mode "machine": the two algorithms run as TLC behaviours, invariants on every            *)
@@ -13,7 +13,8 @@
 (*                 real classes groups / chunks.friendsoffriends / spheregroup.             *)
 EXTENDS FoF, TLC
 CONSTANTS K2, K3, K4, K5,   \* Kn = largest number of chunks in a cover of n points (0: n not explored)
-          DeepN, DeepK,    \* for n = DeepN also the covers of KFor(n)+1 .. DeepK chunks of at most two points
+          DeepN, DeepK,    \* for n = DeepN also the covers of KFor(n)+1 .. DeepK chunks of at most two points,
+          DeepMinLinks,    \* ... for the graphs with at least DeepMinLinks links
           Mode             \* "machine" or "cases"
 VARIABLES c, st, exp
 vars == <<c, st, exp>>
@@ -73,6 +74,7 @@ CoverStep ==
 DeepStep ==
   /\ c.kind = "graph"
   /\ c.n = DeepN
+  /\ Cardinality(c.adj) >= DeepMinLinks
   /\ \E k \in (KFor(c.n) + 1) .. DeepK : \E cv \in [1 .. k -> {ch \in Chunks(c.n) : Cardinality(ch) <= 2}] :
         CoverCase([t \in 1 .. k |-> SortedSeq(cv[t])])
 
